@@ -90,7 +90,13 @@ theorem peng_k_form_strictAnti (k k' a0 a1 a2 a3 a4 b0 b1 b2 b3 b4 : ℝ) (h0 : 
 /-- `PengParametrization.scaled_parameters("scattering_factor")`: widths divided by `2**2` -/
 noncomputable def pengSF (e : List (List ℚ)) (x : ℝ) : ℝ :=
   ParamPengR.scatteringFactorK2 x (g e 0 0) (g e 0 1) (g e 0 2) (g e 0 3) (g e 0 4)
-    ((g e 1 0 : ℝ) / 4) ((g e 1 1 : ℝ) / 4) ((g e 1 2 : ℝ) / 4) ((g e 1 3 : ℝ) / 4) ((g e 1 4 : ℝ) / 4)
+    ((g e 1 0 : ℝ) / ParamPengR.widthDivisor) ((g e 1 1 : ℝ) / ParamPengR.widthDivisor) ((g e 1 2 : ℝ) / ParamPengR.widthDivisor)
+    ((g e 1 3 : ℝ) / ParamPengR.widthDivisor) ((g e 1 4 : ℝ) / ParamPengR.widthDivisor)
+
+/-- the generated unit conversion of the Peng widths, `scattering_factor[1] /= 2 ** 2` -/
+theorem peng_width_divisor : ParamPengR.widthDivisor = 4 := by unfold ParamPengR.widthDivisor; norm_num
+
+lemma peng_div_pos : (0 : ℝ) < ParamPengR.widthDivisor := by rw [peng_width_divisor]; norm_num
 
 lemma pos10_spec (e : List (List ℚ)) (h : pos10 e = true) :
     (0 < (g e 0 0 : ℝ) ∧ 0 < (g e 0 1 : ℝ) ∧ 0 < (g e 0 2 : ℝ) ∧ 0 < (g e 0 3 : ℝ) ∧ 0 < (g e 0 4 : ℝ)) ∧
@@ -105,8 +111,60 @@ theorem peng_entry_sf_pos (e : List (List ℚ)) (h : pos10 e = true) (x : ℝ) :
 
 theorem peng_entry_sf_strictAnti (e : List (List ℚ)) (h : pos10 e = true) (x y : ℝ) (hxy : x < y) : pengSF e y < pengSF e x := by
   obtain ⟨⟨a0, a1, a2, a3, a4⟩, ⟨b0, b1, b2, b3, b4⟩⟩ := pos10_spec e h
-  exact peng_sf_strictAnti _ _ _ _ _ _ _ _ _ _ _ _ a0 a1 a2 a3 a4 (by positivity) (by positivity) (by positivity) (by positivity)
-    (by positivity) hxy
+  exact peng_sf_strictAnti _ _ _ _ _ _ _ _ _ _ _ _ a0 a1 a2 a3 a4 (div_pos b0 peng_div_pos) (div_pos b1 peng_div_pos)
+    (div_pos b2 peng_div_pos) (div_pos b3 peng_div_pos) (div_pos b4 peng_div_pos) hxy
+
+/-! ### Peng real-space potential and projected forms at the generated `scaled_parameters` -/
+
+/-- the potential amplitude is linear in the tabulated weight (in particular it keeps its sign) -/
+theorem peng_potA_linear (a b kappa : ℝ) : ParamPengR.potA a b kappa = a * ParamPengR.potA 1 b kappa := by
+  unfold ParamPengR.potA; ring
+
+theorem peng_scaled_pos (a b kappa : ℝ) (ha : 0 < a) (hb : 0 < b) (hk : 0 < kappa) :
+    0 < ParamPengR.potA a b kappa ∧ 0 < ParamPengR.potB b ∧ 0 < ParamPengR.projA a b kappa ∧ 0 < ParamPengR.projB b := by
+  unfold ParamPengR.potA ParamPengR.potB ParamPengR.projA ParamPengR.projB
+  have hpi := Real.pi_pos
+  have h1 : 0 < Real.rpow Real.pi ((3 : ℝ) / 2) := Real.rpow_pos_of_pos hpi _
+  have h2 : 0 < Real.rpow b ((3 : ℝ) / 2) := Real.rpow_pos_of_pos hb _
+  refine ⟨by positivity, by positivity, by positivity, by positivity⟩
+
+/-- a negative tabulated weight gives a negative potential amplitude (sign preserved) -/
+theorem peng_potA_neg (a b kappa : ℝ) (ha : a < 0) (hb : 0 < b) (hk : 0 < kappa) : ParamPengR.potA a b kappa < 0 := by
+  rw [peng_potA_linear]
+  exact mul_neg_of_neg_of_pos ha (peng_scaled_pos 1 b kappa one_pos hb hk).1
+
+/-- `PengParametrization.potential`: the Gaussian kernel at the scaled parameters -/
+noncomputable def pengPotential (kappa : ℝ) (e : List (List ℚ)) (r : ℝ) : ℝ :=
+  ParamPengR.scatteringFactor r
+    (ParamPengR.potA (g e 0 0) ((g e 1 0 : ℝ) / ParamPengR.widthDivisor) kappa) (ParamPengR.potA (g e 0 1) ((g e 1 1 : ℝ) / ParamPengR.widthDivisor) kappa)
+    (ParamPengR.potA (g e 0 2) ((g e 1 2 : ℝ) / ParamPengR.widthDivisor) kappa) (ParamPengR.potA (g e 0 3) ((g e 1 3 : ℝ) / ParamPengR.widthDivisor) kappa)
+    (ParamPengR.potA (g e 0 4) ((g e 1 4 : ℝ) / ParamPengR.widthDivisor) kappa)
+    (ParamPengR.potB ((g e 1 0 : ℝ) / ParamPengR.widthDivisor)) (ParamPengR.potB ((g e 1 1 : ℝ) / ParamPengR.widthDivisor))
+    (ParamPengR.potB ((g e 1 2 : ℝ) / ParamPengR.widthDivisor)) (ParamPengR.potB ((g e 1 3 : ℝ) / ParamPengR.widthDivisor))
+    (ParamPengR.potB ((g e 1 4 : ℝ) / ParamPengR.widthDivisor))
+
+/-- positive table entry ⇒ the Peng potential is positive and strictly decreasing on `r ≥ 0` (κ > 0) -/
+theorem peng_entry_potential (kappa : ℝ) (hk : 0 < kappa) (e : List (List ℚ)) (h : pos10 e = true) :
+    (∀ r, 0 < pengPotential kappa e r) ∧ ∀ r s, 0 ≤ r → r < s → pengPotential kappa e s < pengPotential kappa e r := by
+  obtain ⟨⟨a0, a1, a2, a3, a4⟩, ⟨b0, b1, b2, b3, b4⟩⟩ := pos10_spec e h
+  obtain ⟨A0, B0, _, _⟩ := peng_scaled_pos _ _ kappa a0 (div_pos b0 peng_div_pos) hk
+  obtain ⟨A1, B1, _, _⟩ := peng_scaled_pos _ _ kappa a1 (div_pos b1 peng_div_pos) hk
+  obtain ⟨A2, B2, _, _⟩ := peng_scaled_pos _ _ kappa a2 (div_pos b2 peng_div_pos) hk
+  obtain ⟨A3, B3, _, _⟩ := peng_scaled_pos _ _ kappa a3 (div_pos b3 peng_div_pos) hk
+  obtain ⟨A4, B4, _, _⟩ := peng_scaled_pos _ _ kappa a4 (div_pos b4 peng_div_pos) hk
+  refine ⟨fun r => ?_, fun r s hr hrs => ?_⟩
+  · unfold pengPotential; rw [peng_k_form]; exact peng_sf_pos _ _ _ _ _ _ _ _ _ _ _ A0 A1 A2 A3 A4
+  · exact peng_k_form_strictAnti r s _ _ _ _ _ _ _ _ _ _ A0 A1 A2 A3 A4 B0 B1 B2 B3 B4 hr hrs
+
+/-- `projected_scattering_factor` at the generated scaled parameters `(a/κ, b/4)` = scattering factor / κ, every entry -/
+theorem peng_entry_projected_sf (kappa : ℝ) (e : List (List ℚ)) (x : ℝ) :
+    ParamPengR.scatteringFactorK2 x (ParamPengR.psfA (g e 0 0) kappa) (ParamPengR.psfA (g e 0 1) kappa) (ParamPengR.psfA (g e 0 2) kappa)
+        (ParamPengR.psfA (g e 0 3) kappa) (ParamPengR.psfA (g e 0 4) kappa)
+        (ParamPengR.psfB ((g e 1 0 : ℝ) / ParamPengR.widthDivisor)) (ParamPengR.psfB ((g e 1 1 : ℝ) / ParamPengR.widthDivisor))
+        (ParamPengR.psfB ((g e 1 2 : ℝ) / ParamPengR.widthDivisor)) (ParamPengR.psfB ((g e 1 3 : ℝ) / ParamPengR.widthDivisor))
+        (ParamPengR.psfB ((g e 1 4 : ℝ) / ParamPengR.widthDivisor))
+      = pengSF e x / kappa := by
+  unfold pengSF ParamPengR.psfA ParamPengR.psfB ParamPengR.scatteringFactorK2; ring
 
 lemma ok_of_not_exception (t : List (String × List (List ℚ))) (ok : List (List ℚ) → Bool)
     (e : String × List (List ℚ)) (he : e ∈ t) (hn : e.1 ∉ exceptions t ok) : ok e.2 = true := by
@@ -123,6 +181,12 @@ theorem pengIonic_exceptions : exceptions pengIonicTable pos10 =
     ["Si++++", "Ti++", "Ti+++", "V++", "Cr+++", "Mn++++", "Ni++", "Ge++++", "Y+++", "Mo+++++", "Pd++", "Sn++", "I-", "Ba++", "U++++"] := by
   decide +kernel
 
+/-- the three ions of the ionic table whose sampled real-space potential is not positive / not decreasing violate the
+coefficient hypothesis (documenting witness of the known finding; the negativity itself is observed by the oracle) -/
+theorem pengIonic_sign_hypothesis_fails :
+    ["Si++++", "Ge++++", "Pd++"].all (fun s => (exceptions pengIonicTable pos10).contains s) = true := by
+  rw [pengIonic_exceptions]; decide
+
 /-- Peng: `projected_scattering_factor` uses the weights `a/κ` with the same widths, hence equals scattering factor / κ -/
 theorem peng_projected_sf_eq (x a0 a1 a2 a3 a4 b0 b1 b2 b3 b4 kappa : ℝ) :
     ParamPengR.scatteringFactorK2 x (a0 / kappa) (a1 / kappa) (a2 / kappa) (a3 / kappa) (a4 / kappa) b0 b1 b2 b3 b4
@@ -135,6 +199,10 @@ theorem pengHigh_table_sf (e : String × List (List ℚ)) (he : e ∈ pengHighTa
     (∀ x, 0 < pengSF e.2 x) ∧ ∀ x y, x < y → pengSF e.2 y < pengSF e.2 x := by
   have hok := ok_of_not_exception pengHighTable pos10 e he (by rw [pengHigh_exceptions]; simpa using hn)
   exact ⟨peng_entry_sf_pos e.2 hok, peng_entry_sf_strictAnti e.2 hok⟩
+
+theorem pengHigh_table_potential (kappa : ℝ) (hk : 0 < kappa) (e : String × List (List ℚ)) (he : e ∈ pengHighTable) (hn : e.1 ≠ "Ra") :
+    (∀ r, 0 < pengPotential kappa e.2 r) ∧ ∀ r s, 0 ≤ r → r < s → pengPotential kappa e.2 s < pengPotential kappa e.2 r :=
+  peng_entry_potential kappa hk e.2 (ok_of_not_exception pengHighTable pos10 e he (by rw [pengHigh_exceptions]; simpa using hn))
 
 theorem pengLow_table_sf (e : String × List (List ℚ)) (he : e ∈ pengLowTable) (hn : e.1 ≠ "Rb" ∧ e.1 ≠ "Np") :
     (∀ x, 0 < pengSF e.2 x) ∧ ∀ x y, x < y → pengSF e.2 y < pengSF e.2 x := by
